@@ -211,6 +211,8 @@ def run(ctx):
     fpath = os.path.join(here, "findings.json")
     if os.path.exists(fpath) and not ctx.replay:
         for f in json.load(open(fpath)).get("findings", []):
+            if f.get("status") != "known":
+                continue  # fixed findings stay in corpus.ops as ordinary regression scenarios
             fops = f["replay"]["ops"]
             fo = go(fops)
             msg = oracle(fops, fo)
